@@ -10,7 +10,8 @@ import unified_planning as up
 from unified_planning.shortcuts import (BoolType, IntType, RealType, UserType, Fluent, Object, InstantaneousAction,
                                         DurativeAction, Problem, StartTiming, EndTiming, GlobalStartTiming, Int,
                                         ObjectExp, Plus, Times, Div, Not, Or, TRUE, FALSE, get_environment)
-from unified_planning.model import Event
+from unified_planning.model import Event, Timepoint, TimepointKind, Timing
+from unified_planning.model.scheduling import SchedulingProblem, Activity
 from unified_planning.model.effect import SimulatedEffect
 from unified_planning.exceptions import UPConflictingEffectsException
 
@@ -26,7 +27,17 @@ RULE = ("histories of 1-8 insertion attempts (add_effect / add_increase_effect /
         "class, exercised for correspondence and exception safety only). Every collection is emitted in several "
         "insertion orders (all 24 for sizes <= 4 in the thorough tier). Non-trivial = some attempt is rejected and a "
         "later attempt follows it, or two attempts of one time point interact (same tracked fluent, or a simulated "
-        "effect covering a tracked fluent).")
+        "effect covering a tracked fluent). "
+        "TIME POINTS AS WRITTEN (payload head thist, ~60% of the collections): DurativeAction, scheduling Activity, "
+        "SchedulingProblem (base chronicle) and Problem timed effects with 1-3 time points drawn from pools that contain "
+        "near misses (start / global start / start of the activity / the number 0); every insertion writes its time "
+        "point in a form drawn per insertion from all forms its signature accepts: Timing objects built by StartTiming(d) "
+        "/ GlobalStartTiming(d) / EndTiming() / GlobalEndTiming(), base+d, base-(-d), (base+1/2)+(d-1/2), Timing(d, "
+        "Timepoint), Timepoint+d, Timepoint-(-d), activity.start/.end+d, with the delay given as int, Fraction, float or "
+        "str; a bare Timepoint (also activity.start/.end) for delay 0; a plain int / Fraction / float for global times "
+        "(add_effect / add_increase_effect / add_decrease_effect of TimedCondsEffs objects only; set_simulated_effect and "
+        "Problem.add_*effect get Timing objects as their signatures say). Orders of one collection are emitted with the "
+        "spellings kept and with the spellings redrawn.")
 ASSUMPTIONS = [
     "values are type-compatible with their fluents (an ill-typed value raises UPTypeError before the conflict check)",
     "'adding the collection raises' = some insertion of the collection raises UPConflictingEffectsException when the "
@@ -37,9 +48,20 @@ ASSUMPTIONS = [
     "empty bookkeeping entries created by dict.setdefault for a timing are not content (read through .get(timing, empty))",
     "forall-quantified effects and action parameters in fluent arguments are not generated (the check treats the "
     "fluent expression as an opaque hash-consed node either way)",
+    "'the same time point' = the same canonical Timing (timepoint kind, container, delay as a number) however it is "
+    "written; time expressions are given in the forms the SIGNATURES accept: TimeExpression (Timing | Timepoint | int | "
+    "float | Fraction) for add_effect/add_increase_effect/add_decrease_effect of DurativeAction / Activity / "
+    "SchedulingProblem, Timing for set_simulated_effect and for Problem.add_timed_effect/add_increase_effect/"
+    "add_decrease_effect (these store under the object as given: a Timepoint or number handed to them against the "
+    "signature becomes a separate dictionary key - observed, not generated); float delays are dyadic (exact)",
+    "Activity.uses (a decrease at start followed by an increase at end in one call) is not generated as one operation",
 ]
 MODELLED = ["modelled by hand (tied by correspondence): check_conflicting_effects, check_conflicting_simulated_effects, "
-            "UntimedEffectMixin/TimedCondsEffs/Problem._add_effect_instance, set_simulated_effect",
+            "UntimedEffectMixin/TimedCondsEffs/Problem._add_effect_instance, set_simulated_effect, Timing.from_time, "
+            "Timing.__add__/__eq__, Timepoint.__eq__ and the four dictionaries keyed by the raw time object",
+            "Python numeric equality/hash across int/Fraction/float (a delay is a Rat); the constructors of Timing objects "
+            "(StartTiming, +, -, uniform_numeric_constant) are exercised on the Python side only: the model receives the "
+            "resulting (timepoint, delay)",
             "FNode identity as structural equality (C16); Python dict/set semantics; Fraction/int equality; "
             "the bool-as-int reading of payloadEq is unreachable through the public API (type check) and not exercised"]
 BUDGET_S = {"quick": 40, "thorough": 500}
@@ -203,12 +225,285 @@ class Container:
         return [self.slot(t) for t in timings]
 
 
+
+# ------------------------------------------------------------------------------------------------
+# time points AS WRITTEN (payload head `thist`): containers with several time points whose insertion
+# methods accept a TimeExpression; canonical time point = (timepoint kind, container, delay)
+# ------------------------------------------------------------------------------------------------
+ACT = "act1"
+TP_KIND = {"gs": TimepointKind.GLOBAL_START, "ge": TimepointKind.GLOBAL_END,
+           "s": TimepointKind.START, "e": TimepointKind.END}
+KIND_TP = {v: k for k, v in TP_KIND.items()}
+HALF = Fraction(1, 2)
+T_POOLS = {  # near misses on purpose: start / global start / start of the activity / the number 0
+    "da": [("s", "-", 0), ("s", "-", 1), ("e", "-", 0), ("e", "-", -2), ("gs", "-", 0), ("gs", "-", 5),
+           ("gs", "-", Fraction(7, 2)), ("s", "-", HALF), ("ge", "-", 0)],
+    "act": [("s", ACT, 0), ("e", ACT, 0), ("s", ACT, 1), ("e", ACT, -2), ("s", "-", 0), ("gs", "-", 0),
+            ("gs", "-", 5), ("gs", "-", Fraction(7, 2))],
+    "sp": [("gs", "-", 0), ("gs", "-", 5), ("gs", "-", Fraction(7, 2)), ("s", ACT, 0), ("e", ACT, 0),
+           ("e", ACT, 2), ("ge", "-", 0)],
+    "pb": [("gs", "-", 0), ("gs", "-", 5), ("gs", "-", Fraction(7, 2)), ("gs", "-", 1), ("s", "-", 0)],
+}
+T_POOLS = {k: [(a, b, Fraction(c)) for a, b, c in v] for k, v in T_POOLS.items()}
+TIMED_KINDS = ("da", "act", "sp", "pb")
+
+
+def tm_label(point):
+    K, C, q = point
+    return ["tm", K, C, str(q.numerator), str(q.denominator)]
+
+
+def label_point(lb):
+    return (lb[1], lb[2], Fraction(int(lb[3]), int(lb[4])))
+
+
+def point_of(te):
+    """the time point a written time expression denotes (doc of Timing.from_time: a number is a delay from the
+    global start, a Timepoint is itself with delay 0) - computed from the payload, never from library objects"""
+    if te[0] == "timing":
+        return (te[1], te[2], Fraction(int(te[3]), int(te[4])))
+    if te[0] == "timepoint":
+        return (te[1], te[2], Fraction(0))
+    if te[0] == "num":
+        return ("gs", "-", Fraction(int(te[1]), int(te[2])))
+    raise ValueError(te)
+
+
+def canonical_texpr(point):
+    K, C, q = point
+    return ["timing", K, C, str(q.numerator), str(q.denominator), "raw", "frac"]
+
+
+def tkey(op):
+    """grouping key of an insertion: its time point (old payloads: the name of the timing)"""
+    return op[1] if isinstance(op[1], str) else point_of(op[1])
+
+
+def lkey(label):
+    return label if isinstance(label, str) else label_point(label)
+
+
+def mk_number(q, ty):
+    if ty == "int":
+        assert q.denominator == 1
+        return int(q)
+    if ty == "frac":
+        return Fraction(q)
+    if ty == "float":
+        return float(q)
+    if ty == "str":
+        return str(q)
+    raise ValueError(ty)
+
+
+def _tp(K, C):
+    return Timepoint(TP_KIND[K], container=None if C == "-" else C)
+
+
+def _base(K, C):
+    c = None if C == "-" else C
+    if K == "s":
+        return StartTiming(container=c)
+    if K == "e":
+        return EndTiming(container=c)
+    assert c is None
+    return GlobalStartTiming() if K == "gs" else up.model.GlobalEndTiming()
+
+
+def mk_time(te, act=None):
+    """the Python object the caller writes"""
+    if te[0] == "num":
+        return mk_number(Fraction(int(te[1]), int(te[2])), te[3])
+    if te[0] == "timepoint":
+        K, C, form = te[1], te[2], te[3]
+        if form == "attr":
+            return act.start if K == "s" else act.end
+        return _tp(K, C)
+    K, C, q, route, ty = te[1], te[2], Fraction(int(te[3]), int(te[4])), te[5], te[6]
+    c = None if C == "-" else C
+    if route == "ctor":
+        if K == "s":
+            return StartTiming(mk_number(q, ty), container=c)
+        if K == "gs":
+            return GlobalStartTiming(mk_number(q, ty))
+        assert q == 0
+        return _base(K, C)
+    if route == "plus":
+        return _base(K, C) + mk_number(q, ty)
+    if route == "minus":
+        return _base(K, C) - mk_number(-q, ty)
+    if route == "split":
+        return (_base(K, C) + HALF) + mk_number(q - HALF, ty)
+    if route == "raw":
+        return Timing(mk_number(q, ty), _tp(K, C))
+    if route == "tpplus":
+        return _tp(K, C) + mk_number(q, ty)
+    if route == "tpminus":
+        return _tp(K, C) - mk_number(-q, ty)
+    if route == "attrplus":
+        return (act.start if K == "s" else act.end) + mk_number(q, ty)
+    raise ValueError(te)
+
+
+def written_forms(point, kind):
+    """every way the harness can write `point` for a container of class `kind`, by class of Python object"""
+    K, C, q = point
+    n, d = str(q.numerator), str(q.denominator)
+    out = {"timing": [], "timepoint": [], "num": []}
+
+    def tys(x, allow_str):
+        return ["frac", "float"] + (["int"] if x.denominator == 1 else []) + (["str"] if allow_str else [])
+
+    for route, arg, allow_str in [("ctor", q, True), ("plus", q, False), ("minus", -q, False),
+                                  ("split", q - HALF, False), ("raw", q, True), ("tpplus", q, False),
+                                  ("tpminus", -q, False), ("attrplus", q, False)]:
+        if route == "ctor" and K in ("e", "ge"):
+            if q == 0:
+                out["timing"].append(["timing", K, C, n, d, "ctor", "int"])
+            continue
+        if route == "attrplus" and not (kind in ("act", "sp") and C == ACT):
+            continue
+        for ty in tys(arg, allow_str):
+            out["timing"].append(["timing", K, C, n, d, route, ty])
+    if q == 0:
+        out["timepoint"].append(["timepoint", K, C, "tp"])
+        if kind in ("act", "sp") and C == ACT:
+            out["timepoint"].append(["timepoint", K, C, "attr"])
+    if K == "gs" and C == "-":
+        for ty in tys(q, False):
+            out["num"].append(["num", n, d, ty])
+    return out
+
+
+def rand_texpr(rng, point, kind, timing_only, plain):
+    f = written_forms(point, kind)
+    if plain:
+        return canonical_texpr(point)
+    classes = ["timing"] if timing_only else [c for c in ("timing", "timepoint", "num") if f[c]]
+    other = [c for c in classes if c != "timing"]
+    cls = rng.choice(other) if other and rng.random() < 0.6 else "timing"
+    return rng.choice(f[cls])
+
+
+def key_out(k):
+    if isinstance(k, Timing):
+        q = Fraction(k.delay)
+        return ["tm", KIND_TP[k.timepoint.kind], k.timepoint.container or "-", str(q.numerator), str(q.denominator)]
+    if isinstance(k, Timepoint):
+        return ["timepoint", KIND_TP[k.kind], k.container or "-"]
+    if isinstance(k, (int, float, Fraction)) and not isinstance(k, bool):
+        q = Fraction(k)
+        return ["num", str(q.numerator), str(q.denominator)]
+    return ["other", type(k).__name__]
+
+
+def _dump(x):
+    import sexp as _sexp
+    return _sexp.dumps(x)
+
+
+class TContainer:
+    """one fresh object of /repo with several time points, and what its four dictionaries hold"""
+
+    def __init__(self, kind):
+        self.kind, self.act = kind, None
+        if kind == "da":
+            self.o = DurativeAction("d")
+            self.tce = self.o
+        elif kind == "act":
+            self.o = Activity(ACT, 3)
+            self.act, self.tce = self.o, self.o
+        elif kind == "sp":
+            self.o = SchedulingProblem("sp")
+            self.act = self.o.add_activity(ACT, 3)
+            self.tce = self.o._base
+        elif kind == "pb":
+            self.o = Problem("p")
+            self.tce = None
+        else:
+            raise ValueError(kind)
+
+    def dicts(self):
+        if self.kind == "pb":
+            return self.o.timed_effects, {}, self.o._fluents_assigned, self.o._fluents_inc_dec
+        t = self.tce
+        return t.effects, t.simulated_effects, t._fluents_assigned, t._fluents_inc_dec
+
+    def attempt(self, op, idx=0):
+        """True iff the insertion raised UPConflictingEffectsException"""
+        o, k = self.o, self.kind
+        time = mk_time(op[1], self.act)
+        try:
+            if op[0] == "sim":
+                if k not in ("da", "act"):
+                    raise ValueError("no public set_simulated_effect on this container")
+                o.set_simulated_effect(time, SimulatedEffect([FLUENTS[f][0] for f in op[2]], _dummy))
+            else:
+                _, _, ekind, f, _bt, v, c = op
+                fl, val = FLUENTS[f][0], mk_val(v)
+                cond = TRUE() if c == "T" else CONDS[c[1]]
+                first = o.add_timed_effect if k == "pb" else o.add_effect
+                meth = {"assign": first, "inc": o.add_increase_effect, "dec": o.add_decrease_effect}[ekind]
+                meth(time, fl, val, cond)
+            return False
+        except UPConflictingEffectsException:
+            return True
+
+    @staticmethod
+    def _slot(label, effs, sim, asg, idc):
+        return [label,
+                ["effects"] + [eff_out(e) for e in effs],
+                ["sim", "none" if sim is None else sorted(FL_NAME[f] for f in sim.fluents)],
+                ["assigned"] + sorted([FL_NAME.get(f, "?" + str(f)), val_out(v)] for f, v in asg.items()),
+                ["incdec"] + sorted(FL_NAME.get(f, "?" + str(f)) for f in idc)]
+
+    def state(self, timings):
+        """[(slots ...), (stray ...)]: content under the canonical Timing of every listed time point, and every OTHER
+        key under which some dictionary holds content"""
+        E, S, A, I = self.dicts()
+        canon = []
+        slots = []
+        for lb in timings:
+            K, C, q = label_point(lb)
+            T = Timing(q, _tp(K, C))
+            canon.append(T)
+            slots.append(self._slot(lb, E.get(T, []), S.get(T, None), A.get(T, {}), I.get(T, set())))
+        stray = []
+        for dct in (E, S, A, I):
+            for key, content in dct.items():
+                if (content is not None and (dct is S or len(content) > 0)) and not any(
+                        isinstance(key, Timing) and key == T for T in canon):
+                    ko = key_out(key)
+                    if ko not in stray:
+                        stray.append(ko)
+        return [["slots"] + slots, ["stray"] + sorted(stray, key=_dump)]
+
+    def snapshot(self):
+        """everything the four dictionaries hold, under whatever key"""
+        E, S, A, I = self.dicts()
+        keys = []
+        for dct in (E, S, A, I):
+            for key in dct:
+                if not any(type(key) is type(k2) and key == k2 for k2 in keys):
+                    keys.append(key)
+        out = [self._slot(key_out(k), E.get(k, []), S.get(k, None), A.get(k, {}), I.get(k, set())) for k in keys]
+        return sorted((x for x in out if x[1:] != [["effects"], ["sim", "none"], ["assigned"], ["incdec"]]), key=_dump)
+
+
+def container(kind, timed):
+    return TContainer(kind) if timed else Container(kind)
+
+
 def parts(payload):
     return payload[1], payload[2][1:], payload[3][1:]
 
 
-def run_history(kind, timings, ops):
-    c = Container(kind)
+def is_timed(payload):
+    return payload[0] == "thist"
+
+
+def run_history(kind, timings, ops, timed=False):
+    c = container(kind, timed)
     out = []
     for i, op in enumerate(ops):
         r = c.attempt(op, i)
@@ -219,6 +514,8 @@ def run_history(kind, timings, ops):
 def impl(payload):
     kind, timings, ops = parts(payload)
     try:
+        if is_timed(payload):
+            return [["r", "T" if r else "F"] + st for r, st in run_history(kind, timings, ops, True)]
         return [["r", "T" if r else "F", st] for r, st in run_history(kind, timings, ops)]
     except Exception as e:   # anything but a conflict error is outside the model
         return ["error", type(e).__name__, str(e)[:120]]
@@ -261,9 +558,13 @@ def rand_value(rng, ty, pool):
     return ["sym", "loc2"]
 
 
-def rand_collection(rng, kind, size_hint=None):
+def rand_collection(rng, kind, size_hint=None, timings=None, sims_ok=None):
     """returns (timings, ops) — ops in one arbitrary order"""
-    if kind in ("ia", "ev"):
+    if sims_ok is None:
+        sims_ok = kind != "pb"
+    if timings is not None:
+        pass
+    elif kind in ("ia", "ev"):
         timings = ["now"]
     elif kind == "da":
         timings = rng.sample(DA_TIMINGS, rng.choice([1, 1, 2, 3]))
@@ -282,7 +583,7 @@ def rand_collection(rng, kind, size_hint=None):
     for _ in range(n):
         t = rng.choice(timings)
         r = rng.random()
-        if kind != "pb" and r < 0.22 and (sims[t] == 0 or rng.random() < 0.12):
+        if sims_ok and r < 0.22 and (sims[t] == 0 or rng.random() < 0.12):
             k = rng.choice([1, 1, 2, 3])
             cand = fl_pool + ([rng.choice(sorted(FLUENTS))] if rng.random() < 0.3 else [])
             fl = [rng.choice(cand) for _ in range(k)]
@@ -308,23 +609,63 @@ def mk_case(kind, timings, ops):
     return ["hist", kind, ["timings"] + list(timings), ["ops"] + [list(o) for o in ops]]
 
 
+def mk_tcase(kind, points, ops):
+    return ["thist", kind, ["timings"] + [tm_label(p) for p in points], ["ops"] + [list(o) for o in ops]]
+
+
+def rand_tcollection(rng, kind):
+    """a collection for a container with several time points: (points, abstract ops whose time is an index into points)"""
+    pool = T_POOLS[kind]
+    r = rng.random()
+    if r < 0.25:      # near misses together: same delay, different time point
+        q0 = [p for p in pool if p[2] == 0]
+        points = rng.sample(q0, min(len(q0), rng.choice([2, 3])))
+    else:
+        points = rng.sample(pool, rng.choice([1, 1, 2, 3]))
+    names = [f"p{i}" for i in range(len(points))]
+    _, ops = rand_collection(rng, kind, timings=names, sims_ok=kind in ("da", "act"))
+    return points, [[op[0], names.index(op[1])] + op[2:] for op in ops]
+
+
+def spell(rng, kind, points, aops, plain=False):
+    """writes the time point of every insertion in a form drawn for that insertion"""
+    out = []
+    for op in aops:
+        timing_only = kind == "pb" or op[0] == "sim"
+        out.append([op[0], rand_texpr(rng, points[op[1]], kind, timing_only, plain)] + op[2:])
+    return out
+
+
+def _orders(rng, n, tier):
+    if tier != "quick" and n <= 4:
+        return list(itertools.permutations(range(n)))
+    k = 5 if tier == "quick" else 8
+    orders = {tuple(range(n)), tuple(reversed(range(n)))}
+    for _ in range(k):
+        p = list(range(n))
+        rng.shuffle(p)
+        orders.add(tuple(p))
+    return sorted(orders)
+
+
 def cases(rng, tier):
     n_coll = 600 if tier == "quick" else 6000
     for _ in range(n_coll):
-        kind = rng.choice(["ia", "ia", "ev", "da", "da", "pb"])
+        kind = rng.choice(["ia", "ia", "ev", "da", "pb", "tda", "tda", "tda", "tda", "tact", "tact", "tsp", "tpb"])
+        if kind[0] == "t" and kind[1:] in TIMED_KINDS:
+            kind = kind[1:]
+            points, aops = rand_tcollection(rng, kind)
+            plain = rng.random() < 0.1       # every time point as the canonical Timing (the old domain)
+            ops = spell(rng, kind, points, aops, plain)
+            for p in _orders(rng, len(ops), tier):
+                if not plain and rng.random() < 0.5:     # the same collection, same order, spellings redrawn
+                    ops2 = spell(rng, kind, points, aops)
+                    yield mk_tcase(kind, points, [ops2[i] for i in p])
+                else:
+                    yield mk_tcase(kind, points, [ops[i] for i in p])
+            continue
         timings, ops = rand_collection(rng, kind)
-        n = len(ops)
-        if tier != "quick" and n <= 4:
-            orders = list(itertools.permutations(range(n)))
-        else:
-            k = 5 if tier == "quick" else 8
-            orders = {tuple(range(n)), tuple(reversed(range(n)))}
-            for _ in range(k):
-                p = list(range(n))
-                rng.shuffle(p)
-                orders.add(tuple(p))
-            orders = sorted(orders)
-        for p in orders:
+        for p in _orders(rng, len(ops), tier):
             yield mk_case(kind, timings, [ops[i] for i in p])
 
 
@@ -335,7 +676,7 @@ def cases(rng, tier):
 def _interacting(ops):
     by_t = {}
     for op in ops:
-        by_t.setdefault(op[1], []).append(op)
+        by_t.setdefault(tkey(op), []).append(op)
     for t, l in by_t.items():
         tr = [op[3] for op in l if tracked(op)]
         if len(tr) != len(set(tr)):
@@ -355,15 +696,50 @@ def nontrivial(payload, ans):
     return reject_then_more or _interacting(ops)
 
 
+def spelling_tags(ops):
+    """how the time points of a history are written"""
+    t = []
+    by_point = {}
+    for op in ops:
+        by_point.setdefault(point_of(op[1]), []).append(op)
+    if all(op[1][0] == "timing" for op in ops):
+        t.append("spelling:timing-objects-only")
+    else:
+        t.append("spelling:some-timepoint-or-number")
+    if any(len({_dump(op[1]) for op in l}) > 1 for l in by_point.values()):
+        t.append("spelling:one-point-written-in-several-forms")
+    if any(len({op[1][0] for op in l}) > 1 for l in by_point.values()):
+        t.append("spelling:one-point-as-several-classes-of-object")
+    if any(op[1][0] == "timing" and op[1][6] in ("frac", "float", "str") and int(op[1][4]) == 1 for op in ops) and \
+            any(op[1][0] == "timing" and op[1][6] == "int" for op in ops):
+        t.append("spelling:integral-delay-as-int-and-as-fraction/float/str")
+    for l in by_point.values():      # the shape of the seeded change C24-2 and its neighbours
+        sims = [op for op in l if op[0] == "sim"]
+        hit = [op for op in l if tracked(op) and op[1][0] != "timing"]
+        if any(op[3] in sm[2] for sm in sims for op in hit):
+            t.append("spelling:sim-covers-tracked-effect-written-as-timepoint/number")
+            break
+    for l in by_point.values():
+        tr = [op for op in l if tracked(op)]
+        if any(a[3] == b[3] and a[1][0] != b[1][0] for a in tr for b in tr):
+            t.append("spelling:two-tracked-effects-on-one-fluent-written-as-different-classes")
+            break
+    return t
+
+
 def stats(payload, ans):
     if not ans or ans[0] == "error":
         return ["error"]
     kind, timings, ops = parts(payload)
     rs = [a[1] == "T" for a in ans]
-    t = [f"container={kind}", f"ops={len(ops)}", f"raised={sum(rs)}", f"timings={len(timings)}"]
+    timed = is_timed(payload)
+    t = [f"container={kind}{'(as-written)' if timed else ''}", f"ops={len(ops)}", f"raised={sum(rs)}",
+         f"timings={len(timings)}"]
+    if timed:
+        t += spelling_tags(ops)
     if any(op[0] == "sim" for op in ops):
         t.append("with-sim")
-    if any(sum(1 for op in ops if op[0] == "sim" and op[1] == tm) > 1 for tm in timings):
+    if any(sum(1 for op in ops if op[0] == "sim" and tkey(op) == lkey(tm)) > 1 for tm in timings):
         t.append("two-sims-at-one-timing")
     for i, r in enumerate(rs):
         if r and any(not q for q in rs[i + 1:]):
@@ -377,8 +753,8 @@ def stats(payload, ans):
     for i, r in enumerate(rs):
         op = ops[i]
         if op[0] == "sim" and not r:
-            cur[op[1]] = op[2]
-        if r and op[0] == "eff" and op[2] != "assign" and op[3] in cur.get(op[1], []):
+            cur[tkey(op)] = op[2]
+        if r and op[0] == "eff" and op[2] != "assign" and op[3] in cur.get(tkey(op), []):
             t.append("incdec-rejected-under-covering-sim")
             break
     if any(r and ops[i][0] == "eff" and ops[i][2] == "assign" for i, r in enumerate(rs)):
@@ -387,7 +763,7 @@ def stats(payload, ans):
     for op in ops:
         if tracked(op) and op[2] == "assign" and op[5][0] in ("int", "real"):
             q = Fraction(int(op[5][1]), int(op[5][2]) if op[5][0] == "real" else 1)
-            vals.setdefault((op[1], op[3], q), set()).add(op[5][0])
+            vals.setdefault((tkey(op), op[3], q), set()).add(op[5][0])
     if any(len(s) > 1 for s in vals.values()):
         t.append("same-number-as-int-and-real")
     return t
@@ -397,40 +773,46 @@ def stats(payload, ans):
 # the property itself on the real code
 # ------------------------------------------------------------------------------------------------
 
-def _pattern(kind, timings, ops):
-    c = Container(kind)
+def _pattern(kind, timings, ops, timed=False):
+    c = container(kind, timed)
     return [c.attempt(op, i) for i, op in enumerate(ops)], c
+
+
+def _content(c, timings):
+    """everything stored; for the containers with several time points: under whatever key"""
+    return c.snapshot() if isinstance(c, TContainer) else c.state(timings)
 
 
 def oracle(payload):
     kind, timings, ops = parts(payload)
+    timed = is_timed(payload)
     # clause 2a: a rejected insertion leaves stored effects, simulated effect and bookkeeping unchanged
-    c = Container(kind)
+    c = container(kind, timed)
     rs = []
     for i, op in enumerate(ops):
-        before = c.state(timings)
+        before = _content(c, timings)
         r = c.attempt(op, i)
         rs.append(r)
-        if r and c.state(timings) != before:
+        if r and _content(c, timings) != before:
             return f"rejected insertion #{i} changed the stored content"
-    final = c.state(timings)
+    final = _content(c, timings)
     # clause 2b: later insertions are judged as if a rejected one had never been attempted
     acc = [op for op, r in zip(ops, rs) if not r]
     if len(acc) != len(ops):
-        prs, c2 = _pattern(kind, timings, acc)
+        prs, c2 = _pattern(kind, timings, acc, timed)
         if any(prs):
             return "replaying only the accepted insertions raises"
-        if c2.state(timings) != final:
+        if _content(c2, timings) != final:
             return "replaying only the accepted insertions gives different content"
         for i, r in enumerate(rs):
             if r:
-                prs, _ = _pattern(kind, timings, ops[:i] + ops[i + 1:])
+                prs, _ = _pattern(kind, timings, ops[:i] + ops[i + 1:], timed)
                 if prs != rs[:i] + rs[i + 1:]:
                     return f"dropping rejected insertion #{i} changes how the others are judged"
     # clause 1: whether adding the collection of one time point raises does not depend on the order
     rng = random.Random(int(hashlib.sha1(repr(payload).encode()).hexdigest()[:8], 16))
     for t in timings:
-        coll = [op for op in ops if op[1] == t]
+        coll = [op for op in ops if tkey(op) == lkey(t)]     # the SAME time point, however it is written
         if sum(1 for op in coll if op[0] == "sim") > 1 or len(coll) < 2:
             continue
         n = len(coll)
@@ -444,19 +826,50 @@ def oracle(payload):
                 orders.append(tuple(p))
         verdicts = set()
         for p in orders:
-            prs, _ = _pattern(kind, [t], [coll[i] for i in p])
+            prs, _ = _pattern(kind, [t], [coll[i] for i in p], timed)
             verdicts.add(any(prs))
             if len(verdicts) > 1:
-                return f"at {t}: whether the collection raises depends on the insertion order ({list(p)})"
+                return f"at {_dump(t)}: whether the collection raises depends on the insertion order ({list(p)})"
     # whole history reversed (interleaving across time points)
-    if all(sum(1 for op in ops if op[0] == "sim" and op[1] == t) <= 1 for t in timings):
-        prs, _ = _pattern(kind, timings, list(reversed(ops)))
+    if all(sum(1 for op in ops if op[0] == "sim" and tkey(op) == lkey(t)) <= 1 for t in timings):
+        prs, _ = _pattern(kind, timings, list(reversed(ops)), timed)
         if any(prs) != any(rs):
             return "whether the history raises differs for the reversed history"
+    # the collection is the same collection however its time points are written: every insertion with its time point
+    # as the canonical Timing object is judged the same and leaves the same content
+    if timed and any(op[1] != canonical_texpr(point_of(op[1])) for op in ops):
+        prs, c3 = _pattern(kind, timings, [[op[0], canonical_texpr(point_of(op[1]))] + op[2:] for op in ops], True)
+        if prs != rs:
+            return "writing the time points as canonical Timing objects changes which insertions raise"
+        if _content(c3, timings) != final:
+            return "writing the time points as canonical Timing objects changes the stored content"
     return None
 
 
+def shrink_t(payload):
+    kind, timings, ops = parts(payload)
+    pts = [label_point(t) for t in timings]
+
+    def mk(ops2):
+        used = [p for p in pts if any(point_of(op[1]) == p for op in ops2)] or pts[:1]
+        return mk_tcase(kind, used, ops2)
+    for i in range(len(ops)):
+        yield mk(ops[:i] + ops[i + 1:])
+    for i, op in enumerate(ops):
+        if op[0] == "sim" and len(op[2]) > 1:
+            for j in range(len(op[2])):
+                yield mk(ops[:i] + [[op[0], op[1], op[2][:j] + op[2][j + 1:]]] + ops[i + 1:])
+        if op[0] == "eff" and op[6] != "T":
+            yield mk(ops[:i] + [op[:6] + ["T"]] + ops[i + 1:])
+        ct = canonical_texpr(point_of(op[1]))
+        if op[1] != ct:
+            yield mk(ops[:i] + [[op[0], ct] + op[2:]] + ops[i + 1:])
+
+
 def shrink(payload):
+    if is_timed(payload):
+        yield from shrink_t(payload)
+        return
     kind, timings, ops = parts(payload)
     for i in range(len(ops)):
         rest = ops[:i] + ops[i + 1:]
@@ -492,3 +905,4 @@ MANIFEST = {
     "technique": "Lean 4 proof over an executable model + model/code correspondence",
     "design_ref": "DESIGN.md §5 C24",
 }
+EXTRA_PROPS = ["UPVerif.Props.C24Timed"]
